@@ -23,28 +23,28 @@ def P(units, text, note, **kw):
 
 
 PROPS = {
-    "C01": P(["lifecycle", "handle", "handle_slices", "provider", "store", "waitpay", "paystate", "rpc", "hooks"],
+    "C01": P(["lifecycle", "handle", "handle_slices", "handle_gate", "provider", "store", "waitpay", "paystate", "rpc", "hooks"],
              "Proof (Verus, unbounded) on payment_lifecycle/resolve as extracted from src/htlc_manager.rs: every Resolve answer carries a key that is the preimage of a completed outgoing part of this hash or of its durable Succeeded record (hence preimage_of(hash)); the pay request carries the invoice and hash of this lifecycle.",
              LIFE_NOTE, assumptions=A_WORLD,
              not_covered=["CLN's own verification of the key", "SHA-256 itself (preimage_of is uninterpreted)"]),
-    "C02": P(["lifecycle", "store", "provider", "handle", "handle_slices", "waitpay", "paystate", "rpc", "hooks"],
+    "C02": P(["lifecycle", "store", "provider", "handle", "handle_slices", "handle_gate", "waitpay", "paystate", "rpc", "hooks"],
              "Proof (Verus, unbounded): at each of the ten resolve(..) call sites of payment_lifecycle a Fail answer requires !live(w) && !pay_running in the ghost world, starting from ANY world that satisfies only the durable invariant (every restart image), under the rely (every interleaving). Known finding F-C02-a (read error of the stored state) is reported per call site.",
              LIFE_NOTE, assumptions=A_WORLD,
              not_covered=["that CLN's pay is not still running after a plugin-only restart (not observable through the RPCs used)"]),
-    "C03": P(["lifecycle", "fee", "paystate", "provider", "waitpay", "handle", "handle_slices", "rpc"],
+    "C03": P(["lifecycle", "fee", "paystate", "provider", "waitpay", "handle", "handle_slices", "handle_gate", "rpc"],
              "Proof (Verus): the single pay call site requires fee_rhs(policy, amount) <= held total, max_fee <= held total (as read at initiation) - amount, the amount rule, the invoice of this hash, and that the counted HTLCs are still unanswered.",
              LIFE_NOTE, assumptions=A_WORLD + ["sum of simultaneously held HTLC amounts < 2^64 msat"]),
-    "C04": P(["lifecycle", "handle", "handle_slices", "provider", "height", "paystate", "config"],
+    "C04": P(["lifecycle", "handle", "handle_slices", "handle_gate", "provider", "height", "paystate", "config"],
              "Proof (Verus): at the pay call site max_cltv_delta <= max(0, min expiry of the HTLCs held at initiation - height returned by current_height() - cltv_delta) and <= policy delta; the arithmetic of src/htlc_manager.rs:576-583 is verified in place.",
              LIFE_NOTE, assumptions=A_WORLD),
     "C05": P(["lifecycle", "store", "provider", "waitpay", "rpc"],
              "Proof (Verus): pay requires !live(w) && !pay_running; a Succeeded record is never followed by add_payment_attempt/pay; add_payment_attempt never overwrites a Succeeded record; the Free write of mark_failed is generation guarded (Released-phase rely).",
              LIFE_NOTE, assumptions=A_WORLD),
-    "C06": P(["lifecycle", "fee", "paystate", "tlv_dec", "handle", "handle_slices", "store", "provider", "waitpay", "height", "tlv_enc", "tlv_get", "hooks", "dispatch", "driver", "driver_run"],
+    "C06": P(["lifecycle", "fee", "paystate", "tlv_dec", "handle", "handle_slices", "handle_gate", "store", "provider", "waitpay", "height", "tlv_enc", "tlv_get", "hooks", "dispatch", "driver", "driver_run"],
              "Proof of the safety half (Verus): every normal return of payment_lifecycle has answered exactly once (resolve requires not yet released, lifecycle ensures released); no reachable panic in the functions under contract (unwrap/expect/todo!/overflow/index are obligations). Known finding F-C06-a (todo! reachable). Liveness clauses are not applicable to this technique (level_note).",
              LIFE_NOTE + " NOT APPLICABLE clauses: 'eventually', 'no later than one MPP timeout', deadlock freedom (liveness / scheduler fairness).",
              assumptions=A_WORLD),
-    "C07": P(["paystate", "lifecycle", "handle", "handle_slices"],
+    "C07": P(["paystate", "lifecycle", "handle", "handle_slices", "handle_gate"],
              "Proof (Verus, unbounded loop invariant): PaymentState::resolve gives every held listener exactly the one response and records it for late HTLCs; add_htlc never signals readiness once failure was requested; fail() is first-wins and only carries Fail; lifecycle resolves exactly once.",
              LIFE_NOTE + " oneshot::Sender::send is linear, so the prophecy `fate` is sound.", assumptions=A_WORLD,
              not_covered=["a rejecting HTLC arriving after readiness was signalled is by design ignored (statement says still-incomplete set)"]),
@@ -57,7 +57,7 @@ PROPS = {
     "C11": P(["lifecycle", "paystate", "config"],
              "Proof of the lower bound (Verus): a temporary_trampoline_failure produced with no attempt and no policy rejection implies now >= wait_started + mpp_timeout; every sleep is at most one mpp_timeout; timer/zero-time branches return without add_payment_attempt/pay; readiness is signalled only when the amounts actually received cover amount + fee (unit paystate), so an incomplete set never starts a payment. The upper bound is not applicable (timer/scheduler latency).",
              LIFE_NOTE + " NOT APPLICABLE clause: the upper bound on the failure time.", assumptions=A_WORLD),
-    "C12": dict(P(["fee", "handle", "handle_slices", "paystate", "lifecycle", "config"],
+    "C12": dict(P(["fee", "handle", "handle_slices", "handle_gate", "paystate", "lifecycle", "config"],
              "Proof (Verus, unbounded): fee_sufficient as extracted from src/messages.rs satisfies the exact integer predicate of the statement for all u64 x u64 x u32 x u32 outside the region of known finding F-C12-a, never answers true when the exact predicate is false anywhere, and has no overflow/panic. One proof covers checked and wrapping builds because no overflow occurs. Third clause: the gate of handle_htlc requests the policy-carrying failure for a too-low declared total / relative expiry (unit handle_slices), PaymentState::fail keeps the first requested failure (unit paystate), and payment_lifecycle answers the set with exactly the failure it took out of the fail channel (unit lifecycle, ghost fail_received).",
              "Trusted: " + TB_COMMON + " vstd specs of checked_mul/checked_add. Known finding F-C12-a (amount*ppm >= 2^64 answers false) is excluded by region and reported as KNOWN-FINDING.",
              assumptions=[]),
@@ -69,7 +69,7 @@ PROPS = {
              "when_fails": "fee::messages::TrampolineRoutingPolicy::fee_sufficient::ensures#exact_outside_mul_overflow_region", "obligation": "fee::messages::TrampolineRoutingPolicy::fee_sufficient::kani#exact_outside_mul_overflow_region", "fn": "messages::TrampolineRoutingPolicy::fee_sufficient"},
             {"harness": "fee_sufficient_exact_inside_mul_overflow_region", "role": "witness", "tier": "thorough", "timeout": 300, "obligation": "fee::messages::TrampolineRoutingPolicy::fee_sufficient::kani#exact_inside_mul_overflow_region", "fn": "messages::TrampolineRoutingPolicy::fee_sufficient"},
         ], kani_quick=True),
-    "C14": P(["lifecycle", "store", "paystate", "handle", "handle_slices", "rpc"],
+    "C14": P(["lifecycle", "store", "paystate", "handle", "handle_slices", "handle_gate", "rpc"],
              "Proof of the two mechanisms (Verus): no RPC / channel wait / timer is started while the table lock is held (every such env call requires !lock_held; lock scope by ghost unlock marker E7). The scheduling statement itself is not applicable.",
              LIFE_NOTE + " NOT APPLICABLE clause: 'a frozen RPC of A does not delay B' (liveness of tokio's scheduler).", assumptions=A_WORLD),
 }
@@ -80,10 +80,10 @@ HANDLE_NOTE = ("Trusted: " + TB_COMMON + " env/invoice.rs (utf-8, str::parse, li
 TU64_KANI = {"harness": "tu64_decodes_exactly", "flags": ["-Z", "stubbing"], "timeout": 900,
       "obligation": "tlv::tlv::ProtoBuf::get_tu64::kani#tu64", "fn": "tlv::ProtoBuf::get_tu64",
       "scope": "every content of every field of 0..=9 bytes (the lengths the statement quantifies over; unwinding assertions on); alloc::fmt::format and Backtrace::capture are stubbed (text of the error message / backtrace of the anyhow error are irrelevant)"}
-PROPS["C10"] = dict(P(["handle", "handle_slices", "tlv_dec", "tlv_get", "config"],
+PROPS["C10"] = dict(P(["handle", "handle_slices", "handle_gate", "tlv_dec", "tlv_get", "config"],
     "Proof (Verus): extract_trampoline_info/check_htlc verbatim: Trampoline(t) only if the metadata decodes, carries record 33001 whose utf-8 text parses to t.invoice, signature valid, invoice hash == HTLC hash, payee = signing key, amount rule (invoice amount, agreeing well-formed amount field; else exactly the declared amount), policy = configured; self-route-hint gate including the not-found half of the search (E8 closure contracts + env find).",
     HANDLE_NOTE, assumptions=["lightning_invoice parse/check_signature/get_payee_pub_key/route_hints behave as their uninterpreted views", "std iter().find returns the first match or None if no element matches (env HintIter::find)"]), kani=[TU64_KANI], kani_quick=True)
-PROPS["C13"] = P(["handle", "handle_slices", "tlv_enc", "tlv_dec", "tlv_get", "hooks"],
+PROPS["C13"] = P(["handle", "handle_slices", "handle_gate", "tlv_enc", "tlv_dec", "tlv_get", "hooks"],
     "Proof (Verus): the classification prefix of handle_htlc returns Continue (payload None, or the input records minus the first type-16 record, byte for byte and in order) or the self-hint Fail, with the ghost world unchanged (no RPC, no table access) on every path; check_htlc/default_response verbatim.",
     HANDLE_NOTE, assumptions=["std Vec / slice iteration semantics of env/vec_model.rs (find/position return the first match; Vec::remove removes exactly that element) under which get/remove are proved in unit tlv_get"])
 
@@ -128,6 +128,10 @@ HOOK_COMMITS = ["a595cb4", "8d4e42a", "747697f", "d2148d0", "01828dc", "e05e365"
 NOTES = "Contract-based deductive verification of the real code; see DESIGN.md. exit 2 = undecided (never a VIOLATION)."
 
 # where a function that other units enter as a contract-only stub is actually proved
+# a unit whose clauses are all stated (same labels) in another unit as well: if it cannot be decided
+# while the other one can, that is recorded, not reported as undecided
+REDUNDANT = {"handle_gate": "handle"}
+
 PROVED_IN = {
     "rpc::ClnRpc::*": "unit rpc (src/rpc.rs hands back exactly what the node answered; the env contracts of ClnRpc used by units store/provider/waitpay/height describe the node behind it)",
     "messages::HtlcFailReason::encode": "Kani harnesses encode_policy_exact / encode_constants_exact (full input domain), run by ./check C12",
